@@ -123,6 +123,17 @@ def streams(ctx):
     for op in ["", "^", "~", ">=", "<=", ">", "<", "=", "v", "=v"]:
         t, d = render.package_json([("dependencies", "lodash", op + "1.0.0", ("lodash", op + "1.0.0", None))], L1)
         add_doc("npm", t, d, VSETS[0], ("npm-op", op))
+    # ... and caches that hold the versions in an order that is neither ascending nor descending (the registry's order, not SemVer's)
+    for vs_ in (VSETS[3], VSETS[7], ["1.2.0", "2.0.0", "1.0.5", "1.0.0", "1.10.0", "1.0.7"], ["2.0.0", "1.0.9", "1.0.10", "1.3.0", "1.0.0"]):
+        for op in ["", "^"]:
+            t, d = render.package_json([("dependencies", "lodash", op + "1.0.0", ("lodash", op + "1.0.0", None))], L1)
+            add_doc("npm", t, d, vs_, ("npm-unordered", op, tuple(vs_)))
+    # ... a prerelease under the cursor whose release (same numbers) or a later prerelease is what the cache holds
+    for vs_ in (["1.0.0"], ["1.0.0-rc.1", "1.0.0"], ["1.0.0-rc.1", "1.0.0-rc.2"], ["0.9.0", "1.0.0-rc.1"], ["1.0.0", "1.1.0"], ["1.0.0-rc.1", "1.0.0", "2.0.0"],
+                ["1.0.0-rc.2", "1.1.0-beta", "1.1.0"]):
+        for spec_ in ("1.0.0-rc.1", "^1.0.0-rc.1"):
+            t, d = render.package_json([("dependencies", "lodash", spec_, ("lodash", spec_, None))], L1)
+            add_doc("npm", t, d, vs_, ("npm-prerelease", spec_, tuple(vs_)))
     for op in ["", "^", "~", ">=", "<=", ">", "<", "="]:
         t, d = render.cargo_toml([("dependencies", "serde", "simple", op + "1.0.0", ("serde", op + "1.0.0", None))], L1)
         add_doc("crates", t, d, VSETS[0], ("crates-op", op))
